@@ -325,9 +325,14 @@ def drive(rnd: random.Random, n: int) -> t.List[t.Dict[str, t.Any]]:
                 ev.append(e)
             elif op == "woct":
                 val = bytes(rnd.randrange(256) for _ in range(rnd.choice((0, 1, 2, 126, 127, 128, 129, 255, 256, 257, rnd.randrange(0, 700)))))
-                w = ASN1Writer()
-                w.write_octet_string(val)
-                ev.append({"op": "woct", "val": L(val), "out": L(bytes(w.get_data()))})
+                # the caller's object may be bytes, a bytearray or a memoryview, and may be written more than once
+                # (the same value in two messages): every write is an event of its own, judged against the ORIGINAL value
+                kind = rnd.randrange(4)
+                arg: t.Any = val if kind == 0 else bytearray(val) if kind < 3 else memoryview(bytearray(val))
+                for _again in range(rnd.choice((1, 1, 2, 3))):
+                    w = ASN1Writer()
+                    w.write_octet_string(arg)
+                    ev.append({"op": "woct", "val": L(val), "out": L(bytes(w.get_data()))})
             elif op == "roct":
                 val = bytes(rnd.randrange(256) for _ in range(rnd.choice((0, 1, 127, 128, 255, 256, rnd.randrange(0, 400)))))
                 lenform = rnd.randrange(3)
@@ -336,7 +341,7 @@ def drive(rnd: random.Random, n: int) -> t.List[t.Dict[str, t.Any]]:
                 inp = b"\x04" + lo + val + trail
                 e = {"op": "roct", "inp": L(inp), "res": "ok", "val": [], "rest": []}
                 try:
-                    r = ASN1Reader(inp)
+                    r = ASN1Reader(inp if rnd.random() < 0.5 else bytearray(inp) if rnd.random() < 0.5 else memoryview(inp))
                     e["val"] = L(r.read_octet_string())
                     e["rest"] = L(r.get_remaining_data())
                 except Exception as ex:  # noqa: BLE001
